@@ -137,6 +137,8 @@ def _lean_lock():
 def run_translator() -> dict:
     """regenerate lean/Mahotas/Generated/*.lean from the current /repo sources"""
     sys.path.insert(0, str(VERIF))
+    import warnings
+    warnings.filterwarnings('ignore', category=SyntaxWarning)     # docstrings of the parsed sources
     from translator import tables
     out = tables.generate(REPO, LEAN / 'Mahotas' / 'Generated')
     # additive: per-property generators living in their own modules (C11 guards, C12 static objects)
